@@ -1,4 +1,5 @@
 import Model
+import Model.Wire
 /-!
 # Line-protocol driver: one JSON case per input line, one JSON verdict per output line.
 -/
@@ -88,6 +89,29 @@ def runSem (j : Json) : Json :=
       let seed := (jnatD j "seed" 1).toUInt64
       let count := jnatD j "count" 20
       let ticks := jnatD j "ticks" (2 * bp.ents.size + 8)
+      -- wiring check against the planned edges
+      let pairIdx (p : Json) : Option (Nat × Nat) :=
+        match p.getArr?.toOption with
+        | some a =>
+          match (a[0]?).bind (·.getStr?.toOption), (a[1]?).bind (·.getStr?.toOption) with
+          | some x, some y =>
+            match idxOfId ids x, idxOfId ids y with
+            | some i, some k => some (i, k)
+            | _, _ => none
+          | _, _ => none
+        | none => none
+      let edges := ((jgetD j "edges").getArr?.toOption.getD #[]).toList.filterMap pairIdx
+      let explicit := ((jgetD j "explicit_wires").getArr?.toOption.getD #[]).toList.filterMap pairIdx
+      let intended : Array (List Nat) := (Array.range bp.ents.size).map (fun i =>
+        (edges.filterMap (fun (s, t) => if t == i then some s else none)) ++
+        (explicit.filterMap (fun (a, b) => if b == i then some a else if a == i then some b else none)))
+      let anchors := (List.range ids.size).filter (fun i => (ids.getD i "").endsWith "_output_anchor")
+      let wr := wireCheck bp c.circ intended explicit anchors
+      let idOf (i : Nat) : Json := Json.str (ids.getD i s!"#{i}")
+      let wireJson := Json.mkObj [
+        ("intrusions", Json.arr (wr.intrusions.map (fun x => Json.mkObj [("sink", idOf x.sink), ("colour", x.colour), ("producer", idOf x.producer), ("sig", x.sig)])).toArray),
+        ("missing", Json.arr (wr.missing.map (fun (a, b) => Json.arr #[idOf a, idOf b])).toArray),
+        ("unjustified", Json.arr (wr.unjustified.map (fun (a, b) => Json.arr #[idOf (a / 4), toJson (a % 4 + 1), idOf (b / 4), toJson (b % 4 + 1)])).toArray)]
       let stateful : Bool := decide (core.mems.size > 0)
       let unsupported := bp.ents.toList.filterMap (fun e => match e.kind with | .unsupported w => some s!"{e.number}:{w}" | _ => none)
       let (done, ms) := if stateful then (0, []) else searchStateless core c.circ inputs obs ren seed count ticks 3
@@ -95,7 +119,7 @@ def runSem (j : Json) : Json :=
         ("n_nodes", core.nodes.size), ("n_obs", obs.length), ("n_inputs", inputs.length),
         ("obs", Json.arr (obs.map (fun o => Json.str o.name)).toArray),
         ("unsupported", Json.arr (unsupported.map Json.str).toArray),
-        ("valuations", done), ("mismatches", Json.arr (ms.map Mismatch.toJson).toArray)]
+        ("wire", wireJson), ("valuations", done), ("mismatches", Json.arr (ms.map Mismatch.toJson).toArray)]
 
 def handle (line : String) : String :=
   match Json.parse line with
